@@ -883,6 +883,17 @@ func ModifyRegister(register *object.Register, in ast.Node) (ast.Node, bool) {
 			// not handled currently (x--)
 			return nil, false
 		}
+	case *ast.PrefixExpression:
+		if (in.Type() == token.INCR || in.Type() == token.DECR) && in.Right == ast.Node(register) {
+			// not handled either (--x): the operand was just replaced by the register.
+			return nil, false
+		}
+	case *ast.ForExpression:
+		if ie, ok := in.Condition.(*ast.InfixExpression); ok && ie.Left == ast.Node(register) &&
+			(ie.Token.Type() == token.ASSIGN || ie.Token.Type() == token.DEFINE) {
+			// `for x = ...` reusing the name as loop variable needs a real identifier.
+			return nil, false
+		}
 	case *ast.FunctionLiteral:
 		// skip lambda/functions in functions.
 		return nil, false
